@@ -1,11 +1,13 @@
 import FimVerif.Drivers.Proto
 import FimVerif.Model.Codec
+import FimVerif.Model.CodecHist
+import FimVerif.Model.IsoDate
 import FimVerif.Generated.Fields
 /-! Line-protocol driver for the C03 codec models.
 
 Wire form of a `JVal`: `null`, `true/false`, integer number, `{"f": repr}` for a float, string,
 array, `{"o": [[k, v], ...]}` for a dict (items in order).  -/
-open Lean FimVerif FimVerif.Proto FimVerif.Codec
+open Lean FimVerif FimVerif.Proto FimVerif.Codec FimVerif.Hist
 
 partial def ofWire : Json → Option JVal
   | .null => some .null
@@ -178,8 +180,97 @@ def maxOf (cls : String) : Nat :=
   | some p => p.2
   | none => 0
 
+/-! ### histories (aliasing): `["hist", kind, ..., steps]` -/
+
+def stepOfWire : Json → Option Step
+  | .arr #[.str "read", .str g, a] => (ofWire a).map (Step.read g)
+  | .arr #[.str "edit", n] => (n.getNat?.toOption).map Step.edit
+  | .arr #[.str "show", n] => (n.getNat?.toOption).map Step.show
+  | _ => none
+
+def stepsOfWire : Json → Option (List Step)
+  | .arr xs => xs.toList.mapM stepOfWire
+  | _ => none
+
+/-- a reply per step: `[value]`, or `null` when the step did not apply -/
+def repliesToWire (rs : List (Option JVal)) : Json :=
+  .arr (rs.map fun r => match r with
+    | some v => Json.arr #[toWire v]
+    | none => Json.null).toArray
+
+def histRun {σ : Type} (get : σ → String → JVal → Option JVal) (obj : σ) (owned : List JVal) (steps : Json) : Json :=
+  match stepsOfWire steps with
+  | some ss => ok (repliesToWire (Hist.run get ⟨obj, owned⟩ ss))
+  | none => err "bad-args"
+
+def refStepOfWire : Json → Option RefStep
+  | .arr #[.str "growX", .str k, it] => (ofWire it).map (RefStep.growX k)
+  | .arr #[.str "growY", .str k, it] => (ofWire it).map (RefStep.growY k)
+  | .arr #[.str "update"] => some .takeUpdate
+  | .arr #[.str "showX"] => some .showX
+  | .arr #[.str "showY"] => some .showY
+  | _ => none
+
+def showInst (c : ClassSpec) (x : Fields) : Json := Json.arr #[valsToWire (toList c x), .str (toJson c x)]
+
+/-- replies of a by-reference history: the instance shown by `showX` / `showY`, `null` for the other steps -/
+def refReplies (c : ClassSpec) (copies : Bool) : RefWorld → List RefStep → List Json
+  | _, [] => []
+  | w, s :: rest =>
+    let w' := refStep c copies w s
+    (match s with
+      | .showX => showInst c w'.x
+      | .showY => match w'.y with
+        | some y => showInst c y
+        | none => Json.null
+      | _ => Json.null) :: refReplies c copies w' rest
+
 def handle (j : Json) : Json :=
   match j with
+  | .arr #[.str "iso", .str s] =>
+    match Iso.isoCanon s with
+    | some t => ok (.str t)
+    | none => err "value"
+  | .arr #[.str "json.parse", .str s] =>
+    match JParse.parse s with
+    | some v => ok (toWire v)
+    | none => err "value"
+  | .arr #[.str "hist", .str "jd", .str cls, src, steps] =>
+    match src with
+    | .arr #[.str "text", .str s, .bool valid] =>
+      match jdFromText (fun _ => valid) (maxOf cls) s with
+      | .ok t => histRun jdGet t [.str s] steps
+      | .error e => err e
+    | .arr #[.str "obj", jv, _] =>       -- third element: the Python literal the implementation side builds the object from
+      match ofWire jv with
+      | some v => match jdNew (maxOf cls) v with
+        | .ok t => histRun jdGet t [v] steps
+        | .error e => err e
+      | none => err "bad-args"
+    | _ => err "bad-args"
+  | .arr #[.str "hist", .str "tags", args, steps] =>
+    match valsOfWire args with
+    | some as => match tagsNew (fun _ => true) as with
+      | .ok ts => histRun tagsGet ts as steps
+      | .error e => err e
+    | none => err "bad-args"
+  | .arr #[.str "hist", .str "mi", .arr entries, steps] =>
+    match entries.toList.mapM (fun (it : Json) => match it with
+        | Json.arr #[Json.str n, e] => (entryOfWire e).map fun e' => (n, e')
+        | _ => none) with
+    | some es =>
+      let m := es.foldl (fun (m : MInfo) p => match m.add p.1 p.2 with
+        | .ok m' => m'
+        | .error _ => m) MInfo.empty
+      histRun miGet m.finalize (es.map fun p => entryVal p.2) steps
+    | none => err "bad-args"
+  | .arr #[.str "hist", .str "jf", .str cls, kw, .arr steps] =>
+    match specOf cls, pairsOfWire kw, steps.toList.mapM refStepOfWire with
+    | some c, some kvs, some ss =>
+      match construct c anyValid kvs with
+      | .ok x => ok (.arr (refReplies c Gen.Fields.updateCopiesLists { x := x } ss).toArray)
+      | .error e => err e
+    | _, _, _ => err "bad-args"
   | .arr #[.str "jf.new", .str cls, kw] =>
     match specOf cls, pairsOfWire kw with
     | some c, some kvs => exc (construct c anyValid kvs) (showFields c)
@@ -237,7 +328,7 @@ def handle (j : Json) : Json :=
   | .arr #[.str "mi.run", .arr ops] => ok (.arr (miRun ops.toList MInfo.empty []).toArray)
   | .arr #[.str "mi.dec", jv, tbl] =>
     match ofWireOpt jv, isoTable tbl with
-    | some v, some t => exc (minfoDecode (isoOfTable t) v) fun
+    | some v, some t => exc (minfoDecode (fun s => (Iso.isoCanon s).orElse fun _ => isoOfTable t s) v) fun
       | none => .null
       | some m => Json.arr #[minfoToWire m, exc (minfoEncode m) (fun j => .str j.render)]
     | _, _ => err "bad-args"
